@@ -929,6 +929,194 @@ def oto_identity_shard(arg):
     return t
 
 
+# ------------------------------------------------------------------------------------------------------
+# Keys and values that are not equal to themselves.  "Arbitrary hashable keys and values": float('nan') is hashable,
+# and dicts find it by identity (`is` before `==`).  One NaN object next to 0 and 1, every pair list of <= 3 pairs,
+# every way of putting the pairs in, one removal afterwards.  The reference works on *codes* ('nan', 0, 1): with a single
+# NaN object "same key" (identical or equal) coincides with equality of codes, so the model is the ordinary one.
+
+ODD_NAN = float('nan')
+ODD_DOM = ('nan', 0, 1)
+ODD_FORMS = ('ctor(pairs)', 'ctor(dict)', 'ctor(iterator)', 'unique(pairs)', 'update(pairs)', 'ior(pairs)', 'setitem-each',
+             'ctor(pairs[:1]);update(pairs[1:])', 'copy()', 'ctor(OneToOne)')
+ODD_AFTER = (None, 'del', 'pop', 'inv-del', 'inv-pop', 'set-again')
+
+
+def odd_obj(c):
+    return ODD_NAN if c == 'nan' else c
+
+
+def odd_code(x):
+    return 'nan' if x is ODD_NAN else ('nan(another object)' if x != x else x)
+
+
+def odd_items(d):
+    return [(odd_code(k), odd_code(v)) for k, v in dict.items(d)]
+
+
+def odd_pairlists(maxlen):
+    prs = [(k, v) for k in ODD_DOM for v in ODD_DOM]
+    for n in range(maxlen + 1):
+        for seq in itertools.product(prs, repeat=n):
+            yield seq
+
+
+def odd_check(cls, seq, form, after, target):
+    """Returns [(sig, expected, observed)]."""
+    out = []
+    pairs = [(odd_obj(k), odd_obj(v)) for k, v in seq]
+    name = 'OneToOne.%s[NaN operands]' % form
+
+    def bad(what, exp, obs, nm=name):
+        out.append(('C17|op:%s|%s' % (nm, what), exp, obs))
+
+    plain = dict(seq)
+    want_exc = form == 'unique(pairs)' and len(set(plain.values())) < len(plain)
+    model = oto_seq({}, seq)
+    # a pair list that repeats a key: bulk forms may assign pair by pair or collapse the argument into a dict first
+    # (same latitude as in the searches above); item assignment is sequential by construction
+    models = [model] if form == 'setitem-each' else [model, oto_seq({}, list(plain.items()))]
+    if form == 'ctor(pairs[:1]);update(pairs[1:])':
+        models = [model, oto_seq(dict(seq[:1]), list(dict(seq[1:]).items()))]
+    try:
+        if form == 'ctor(pairs)':
+            o = cls(pairs)
+        elif form == 'ctor(dict)':
+            o = cls(dict(pairs))
+        elif form == 'ctor(iterator)':
+            o = cls(iter(pairs))
+        elif form == 'unique(pairs)':
+            o = cls.unique(pairs)
+        elif form == 'update(pairs)':
+            o = cls(); o.update(pairs)
+        elif form == 'ior(pairs)':
+            o = cls(); o |= pairs
+        elif form == 'setitem-each':
+            o = cls()
+            for k, v in pairs:
+                o[k] = v
+        elif form == 'ctor(pairs[:1]);update(pairs[1:])':
+            o = cls(pairs[:1]); o.update(pairs[1:])
+        elif form == 'copy()':
+            o = cls(pairs).copy()
+        else:
+            o = cls(cls(pairs))
+    except Hang:
+        raise
+    except Exception as e:
+        if not (want_exc and isinstance(e, ValueError)):
+            bad('result', 'ValueError' if want_exc else 'an instance', 'raised ' + type(e).__name__)
+        return out
+    if want_exc:
+        bad('result', 'ValueError (two keys carry one value)', 'returned ' + repr(o))
+        return out
+
+    def state_ok(o, model, nm):
+        fwd, inv = odd_items(o), odd_items(o.inv)
+        ok = True
+        if sorted(map(repr, fwd)) != sorted(map(repr, model.items())):
+            bad('contents', sorted(map(repr, model.items())), sorted(map(repr, fwd)), nm); ok = False
+        if sorted(map(repr, inv)) != sorted(repr((v, k)) for k, v in fwd):
+            bad('mirror', sorted(repr((v, k)) for k, v in fwd), sorted(map(repr, inv)), nm); ok = False
+        if o.inv.inv is not o:
+            bad('mirror', 'o.inv.inv is o', 'another object', nm); ok = False
+        if ok:
+            for k, v in dict.items(o):
+                try:
+                    r1, r2 = o[k], o.inv[v]
+                except Exception as e:
+                    bad('lookup', 'o[k] is v and o.inv[v] is k', 'raised ' + type(e).__name__, nm); ok = False
+                    break
+                if r1 is not v or r2 is not k:
+                    bad('lookup', 'o[k] is v and o.inv[v] is k', [odd_code(r1), odd_code(r2)], nm); ok = False
+                    break
+        return ok
+
+    got = sorted(map(repr, odd_items(o)))
+    for m in models[1:]:
+        if got == sorted(map(repr, m.items())):
+            model = m
+    if not state_ok(o, model, name) or after is None:
+        return out
+    # one more operation on the object so built
+    t_obj = odd_obj(target)
+    nm2 = '%s;%s' % (name, after)
+    m2 = dict(model)
+    inv_model = transpose(m2)
+    try:
+        if after == 'del':
+            present = target in m2
+            del o[t_obj]
+            m2.pop(target)
+        elif after == 'pop':
+            present = target in m2
+            r = o.pop(t_obj)
+            if odd_code(r) != m2.pop(target):
+                bad('result', model.get(target), odd_code(r), nm2)
+        elif after == 'inv-del':
+            present = target in inv_model
+            del o.inv[t_obj]
+            m2.pop(inv_model[target])
+        elif after == 'inv-pop':
+            present = target in inv_model
+            r = o.inv.pop(t_obj)
+            if odd_code(r) != inv_model[target]:
+                bad('result', inv_model.get(target), odd_code(r), nm2)
+            m2.pop(inv_model[target])
+        else:
+            present = True
+            o[t_obj] = t_obj
+            oto_assign(m2, target, target)
+        if not present:
+            bad('result', 'KeyError', 'returned', nm2)
+            return out
+    except Hang:
+        raise
+    except KeyError:
+        if present:
+            bad('result', 'returns', 'raised KeyError', nm2)
+            return out
+        m2 = dict(model)
+    except Exception as e:
+        bad('result', 'returns' if present else 'KeyError', 'raised ' + type(e).__name__, nm2)
+        return out
+    state_ok(o, m2, nm2)
+    return out
+
+
+def odd_cases(maxlen):
+    for seq in odd_pairlists(maxlen):
+        for form in ODD_FORMS:
+            for after in ODD_AFTER:
+                for target in (ODD_DOM if after else (None,)):
+                    yield seq, form, after, target
+
+
+def odd_case(seq, form, after, target):
+    return {'kind': 'oto-nan', 'pairs': [list(p) for p in seq], 'form': form, 'then': after, 'target': target,
+            'objects': "'nan' stands for one float('nan') object"}
+
+
+def odd_shard(arg):
+    from boltons.dictutils import OneToOne
+    idx, nshards, maxlen = arg
+    t = inputs.Tally()
+    cur = None
+    try:
+        with Budget(600):
+            for i, cur in enumerate(odd_cases(maxlen)):
+                if i % nshards != idx:
+                    continue
+                case = odd_case(*cur)
+                t.count(nontrivial=any('nan' in p for p in cur[0]), sample=case)
+                for sig, exp, obs in odd_check(OneToOne, *cur):
+                    t.bad(sig, case, exp, obs)
+    except Hang:
+        t.bad('C17|op:OneToOne.%s[NaN operands]|terminates' % cur[1], odd_case(*cur), 'returns',
+              'shard exceeded its 600 s CPU budget')
+    return t
+
+
 # ======================================================================================================
 # ManyToMany
 # ======================================================================================================
@@ -1905,6 +2093,11 @@ def fd_check_content(FrozenDict, FrozenHashError, content, t, only=None):
     derive('copy.copy', lambda fd: copy.copy(fd), dict(base))
     derive('copy.deepcopy', lambda fd: copy.deepcopy(fd), dict(base))
     derive('FrozenDict(fd)', lambda fd: FrozenDict(fd), dict(base))
+    derive('FrozenDict(fd,kwargs)', lambda fd: FrozenDict(fd, z=3), dict(base, z=3))
+    derive('FrozenDict(fd,kwargs-overwrite)', lambda fd: FrozenDict(fd, a=[9]), dict(base, a=[9]))
+    derive('FrozenDict(fd.items())', lambda fd: FrozenDict(fd.items()), dict(base))
+    derive('dict(fd)', lambda fd: dict(fd), dict(base))
+    derive('type(fd)(fd)', lambda fd: type(fd)(fd, **{}), dict(base))
     derive('or', lambda fd: fd | {'z': 9}, dict(base, z=9), value=False)
     derive('ror', lambda fd: {'z': 9, 'a': 5} | fd, dict({'z': 9, 'a': 5}, **base), value=False)
     for proto in range(pickle.HIGHEST_PROTOCOL + 1):
@@ -2059,6 +2252,11 @@ def run(ctx):
         'every one-to-one relation over 3 x 3 tuple objects x every writer / remover on the forward and the inverse side '
         'x per operand "the stored object" or "a new equal object of the same type"; non-trivial: non-empty state and at '
         'least one operand that is not the stored object'))
+    inputs.run_shards(ctx, odd_shard, [(i, 16, 3 if quick else 4) for i in range(16)], part='onetoone-nan-operands', rule=(
+        'every list of <= %d pairs over {one float("nan") object, 0, 1}^2 x %d ways of putting the pairs into a OneToOne '
+        '(constructors, unique, update, |=, item assignment, copies) x nothing / one removal or re-assignment of each '
+        'element on either side; contents, mirror and identity of what lookups return; non-trivial: NaN occurs'
+        % (3 if quick else 4, len(ODD_FORMS))))
     values = FD_VALUES_QUICK if quick else FD_VALUES_THOROUGH
     n = 16
     inputs.run_shards(ctx, fd_shard, [(values, i, n) for i in range(n)], part='frozendict-matrix', rule=(
@@ -2125,6 +2323,14 @@ def replay(ctx, data):
             with Budget(OP_BUDGET):
                 found = oto_identity_check(OneToOne, oto_identity_spec(), [tuple(p) for p in case['state']], stored,
                                            tup(case['op']), modes)
+        except Hang:
+            return ['%s: no return within %d s of CPU time' % (data.get('signature'), OP_BUDGET)]
+        return ['%s expected=%r observed=%r' % f for f in found]
+    if kind == 'oto-nan':
+        from boltons.dictutils import OneToOne
+        try:
+            with Budget(OP_BUDGET):
+                found = odd_check(OneToOne, [tuple(p) for p in case['pairs']], case['form'], case['then'], case['target'])
         except Hang:
             return ['%s: no return within %d s of CPU time' % (data.get('signature'), OP_BUDGET)]
         return ['%s expected=%r observed=%r' % f for f in found]
